@@ -62,7 +62,7 @@ def main(chk):
         pre = model_prefix(case)
         tt = qtok(Fraction(total))
         ids = case['ids']
-        ops = [rng.choice(['project', 'project', 'project', 'many', 'krondot', 'datavector', 'saveload']) for _ in range(rng.randint(4, 8))]
+        ops = [rng.choice(['project', 'project', 'project', 'many', 'krondot', 'datavector', 'saveload', 'bp_other', 'synth']) for _ in range(rng.randint(4, 8))]
         cached = False
         hist = []
         for op in ops:
@@ -81,6 +81,8 @@ def main(chk):
                         if rng.random() < 0.3:
                             lines.append('q_project_ve %s %s %s' % (pre, tt, ltok([ids[a] for a in t])))
                             pend.append((info, dict(kind='project(elimination model)', attrs=list(t)), got, total))
+                        if rng.random() < 0.5 and isinstance(f.values, np.ndarray):
+                            f.values[...] = f.values * 0.5 + 1.0; hist[-1] = 'project+caller-overwrites-answer'     # an answer belongs to the caller
                     elif op == 'many':
                         projs = list({rand_tuple(rng, attrs) for _ in range(rng.randint(1, 4))})
                         ans = m.calculate_many_marginals(projs)
@@ -90,6 +92,8 @@ def main(chk):
                             got = (list(f.domain.attrs), [float(v) for v in np.asarray(f.values, dtype=float).reshape(-1)])
                             lines.append('q_brute %s %s %s' % (pre, tt, ltok([ids[a] for a in t])))
                             pend.append((info, dict(kind='calculate_many_marginals', attrs=list(t)), got, total))
+                            if rng.random() < 0.3 and isinstance(f.values, np.ndarray):
+                                f.values[...] = 7.0; hist[-1] = 'many+caller-overwrites-answer'
                     elif op == 'datavector':
                         v = m.datavector(flatten=rng.random() < 0.5)
                         got = (list(attrs), [float(x) for x in np.asarray(v, dtype=float).reshape(-1)])
@@ -110,6 +114,15 @@ def main(chk):
                             got = (['wrong-shape'], got[1])
                         lines.append('q_krondot %s %s %s' % (pre, tt, ' '.join(toks)))
                         pend.append((info, dict(kind='krondot', attrs=['answer']), got, total * 50))
+                    elif op == 'bp_other':
+                        # inference on OTHER parameters (what the estimators do with candidate iterates) must not change the model's answers
+                        other = CliqueVector({cl: case['facs'][cl].copy() * rng.choice([0.0, 0.5, 3.0]) + rng.choice([0.0, 2.0]) for cl in case['mcl']})
+                        m.belief_propagation(other)
+                    elif op == 'synth':
+                        try:
+                            m.synthetic_data(rows=rng.choice([1, 7, 60]))       # reads answers and works on them in place; its own result is C11's business
+                        except Exception:
+                            chk.count('synth-raised(ignored here)')
                     elif op == 'saveload':
                         path = os.path.join(tmpdir, 'm.pkl')
                         GraphicalModel.save(m, path)
